@@ -198,6 +198,9 @@ def run(rep, idx, tier):
     from .c20 import member_table, SIG_SPECS
     member_table(rep, idx, idx.find_class("PinSignature"), SIG_SPECS["PinSignature"][1], rule="C16.7")
     from . import glue as _glue
+    # pin_count and input_stages are kept as given: the synchroniser depth and the register widths are built from the stored values
+    rep.require("C16.8", 2)
+    _glue.parameter_views(rep, "C16.8", idx, only_modules=["gpio.py"])
     # the input synchroniser stages are reset-less on purpose (their value after reset is the pin level within
     # input_stages cycles either way); the output storage register is not
     oa = output_action_class(idx)
